@@ -1,9 +1,15 @@
 package main
 
 import (
+	"crypto/ecdsa"
 	"crypto/sha256"
+	"encoding/hex"
 	"encoding/json"
 	"fmt"
+	"math/big"
+
+	"github.com/ethereum/go-ethereum/common/hexutil"
+	ethcrypto "github.com/ethereum/go-ethereum/crypto"
 
 	"github.com/my-cloud/ruthenium/validatornode/domain/encryption"
 	"github.com/my-cloud/ruthenium/validatornode/domain/ledger"
@@ -219,4 +225,50 @@ func sxBlock(b *ledger.Block) string {
 	}
 	return sx("block", fmt.Sprintf("%x", ph[:]), sxStrSlice(b.AddedRegisteredAddresses()),
 		sxStrSlice(b.RemovedRegisteredAddresses()), i64(b.Timestamp()), txs)
+}
+
+// SigValid: does the signature of this input verify, under its public key, over the JSON
+// rendering of (output_index, transaction_id)? Computed with crypto/ecdsa directly, not through
+// ledger.Input.VerifySignature: it is the oracle the model's sig_ok table is filled from and what
+// the monitors judge admissions by, so it must not depend on the code under test.
+func SigValid(j *JInput) bool {
+	if len(j.Signature) != 128 {
+		return false
+	}
+	rb, err1 := hex.DecodeString(j.Signature[:64])
+	sb, err2 := hex.DecodeString(j.Signature[64:])
+	if err1 != nil || err2 != nil {
+		return false
+	}
+	kb, err := hexutil.Decode(j.PublicKey)
+	if err != nil {
+		return false
+	}
+	pub, err := ethcrypto.UnmarshalPubkey(kb)
+	if err != nil {
+		return false
+	}
+	msg, err := json.Marshal(struct {
+		OutputIndex   uint16 `json:"output_index"`
+		TransactionId string `json:"transaction_id"`
+	}{j.OutputIndex, j.TransactionId})
+	if err != nil {
+		return false
+	}
+	h := sha256.Sum256(msg)
+	return ecdsa.Verify(pub, h[:], new(big.Int).SetBytes(rb), new(big.Int).SetBytes(sb))
+}
+
+// AddrOf: the address of a public key (Keccak of the uncompressed point, EIP-55 rendering),
+// computed with go-ethereum directly rather than through ledger.Input.Address
+func AddrOf(pubHex string) (string, bool) {
+	kb, err := hexutil.Decode(pubHex)
+	if err != nil {
+		return "", false
+	}
+	pub, err := ethcrypto.UnmarshalPubkey(kb)
+	if err != nil {
+		return "", false
+	}
+	return ethcrypto.PubkeyToAddress(*pub).Hex(), true
 }
